@@ -354,8 +354,10 @@ struct C04 : Property
 					got.dump = "<none>";
 					if (o)
 						LIBV(json_object_put(o));
-					if (got.err != json_tokener_error_size || got.has_value)
-						ctx.fail("C04:bad-length-accepted", "parse_ex with len=%d gave status '%s'", bad, json_tokener_error_desc((enum json_tokener_error)got.err));
+					// one of the three outcomes: here it can only be "no value + error status" (json-c answers json_tokener_error_size)
+					if (got.has_value || got.err == json_tokener_success || got.err == json_tokener_continue)
+						ctx.fail("C04:bad-length-accepted", "parse_ex with len=%d gave status '%s'%s", bad, json_tokener_error_desc((enum json_tokener_error)got.err),
+						         got.has_value ? " and a value" : "");
 					ctx.probe("error.size_bad_length");
 					if (s.mirror)
 					{
